@@ -338,6 +338,10 @@ func (e *Engine) indexAddr(f *frame, x *ssa.IndexAddr, guard T) Value {
 	base := e.get(f, x.X)
 	idx := e.get(f, x.Index).(T)
 	signed := isSigned(x.Index.Type())
+	return e.indexAddrOn(f, x, base, idx, signed, guard)
+}
+
+func (e *Engine) indexAddrOn(f *frame, x *ssa.IndexAddr, base Value, idx T, signed bool, guard T) Value {
 	var n int
 	var at func(i int) Ptr
 	switch b := base.(type) {
@@ -365,6 +369,11 @@ func (e *Engine) indexAddr(f *frame, x *ssa.IndexAddr, guard T) Value {
 		}
 	case MPtr:
 		panic(engineError{"index through pointer set unsupported"})
+	case IteV:
+		// a slice chosen under a symbolic guard: index both alternatives
+		pa := e.indexAddrOn(f, x, b.a, idx, signed, tand(guard, b.c))
+		pb := e.indexAddrOn(f, x, b.b, idx, signed, tand(guard, tnot(b.c)))
+		return e.iteVal(b.c, pa, pb)
 	default:
 		panic(engineError{fmt.Sprintf("indexAddr on %T", base)})
 	}
@@ -650,6 +659,11 @@ func (e *Engine) invoke(recv Value, m *types.Func, args []Value, site *ssa.Call,
 func (e *Engine) builtin(name string, args []Value, x *ssa.Call, guard T) Value {
 	switch name {
 	case "len":
+		if iv, ok := args[0].(IteV); ok {
+			la := e.builtin("len", []Value{iv.a}, x, guard).(T)
+			lb := e.builtin("len", []Value{iv.b}, x, guard).(T)
+			return tite(iv.c, la, lb)
+		}
 		switch a := args[0].(type) {
 		case SliceV:
 			return bv(uint64(a.len), 64)
